@@ -48,6 +48,15 @@ def jobs(tier, seed):
     for d in [["Multiply", fam.C(1), fam.X, fam.C(2)], ["Power", fam.X, fam.C(1)], ["Power", fam.C(1), fam.X], ["Add", fam.C(1), ["Multiply", fam.C(2), fam.X]],
               ["Divide", fam.X, fam.C(1)], ["NthPower", ["Multiply", fam.C(1), fam.X], 2], ["Exponential", ["Multiply", fam.C(1), fam.X]]]:
         add(d, var="x")
+    # two different originals (same shape, different constant) differentiated one after the other in the same process
+    def variant_pair(mk):
+        return mk(fam.C(1)), mk(fam.C(2))
+    for mk in (lambda c: ["Multiply", c, ["NthPower", fam.X, 2]], lambda c: ["Add", ["NthPower", fam.X, 3], ["Multiply", c, fam.X]],
+               lambda c: ["Sine", ["Multiply", c, fam.X]], lambda c: ["Power", fam.X, c], lambda c: ["Divide", fam.X, ["Add", fam.X, c]]):
+        d, v = variant_pair(mk)
+        # candidate assignments (x, c1, c2): CPython's numeric-hash collisions -1/-2
+        js.append({"mode": "route", "d": d, "pre_variant": v, "routes": list(ROUTES1) + ["synth2_fwd"], "var": "x", "var2": "x",
+                   "candidates": [[3, -2, -1], [2, -1, -2], [3, -2.0, -1.0]]})
     add(["Exponential", fam.A(1), ["sym", "b"]], var="x", assume=[["gt", "b", 0]])
     add(["Logarithm", fam.A(1), ["sym", "b"]], var="x", assume=[["gt", "b", 0], ["ne", "b", 1]])
     f2 = fam.f2_quick(6, 1) if tier == "quick" else fam.f2("thorough")
